@@ -8,7 +8,8 @@ VARIABLES l, st, fees
 vars == <<l, st, fees>>
 
 StOf(o) == [init |-> o.init, future |-> o.future, start |-> o.start, stop |-> o.stop, height |-> o.height,
-            res |-> o.res, S |-> o.S, fee |-> o.fee, bal |-> o.bal]
+            res |-> o.res, S |-> o.S, fee |-> o.fee, bal |-> o.bal,
+            feeAll |-> o.feeAll, burned |-> o.burned, col |-> o.col, circ |-> o.circ]
 
 HarnessAmp(ev) == << <<"TRACE.harness-amp=AmpAt(config,height)", ev.args.amp = AmpNow(st)>> >>
 
@@ -19,7 +20,7 @@ EvChecks(ev, t) ==
      [] ev.ev = "swap" ->
           IF ev.res = "ok"
           THEN SwapChecks(st, fees, ev.args.i, ev.args.j, ev.args.k, ev.args.offer, ev.args.curve, ev.args.out, t)
-               \o SimChecks(ev.args.sim, ev.args.out) \o HarnessAmp(ev)
+               \o SimChecks(ev.args.sim, ev.args.out) \o HarnessAmp(ev) \o SwapLedgerChecks(st, ev.args.j, ev.args.out, t)
           ELSE Untouched(st, t)
      [] ev.ev = "provide" ->
           IF ev.res = "ok" THEN ProvideChecks(st, ev.args.d, ev.args.curve, ev.args.minted, t) \o HarnessAmp(ev)
@@ -27,9 +28,9 @@ EvChecks(ev, t) ==
      [] ev.ev = "withdraw" ->
           IF ev.res = "ok" THEN WithdrawChecks(st, ev.args.amt, t) ELSE Untouched(st, t)
      [] ev.ev = "collect" ->
-          IF ev.res = "ok" THEN CollectChecks(st, t) ELSE Untouched(st, t)
+          IF ev.res = "ok" THEN CollectChecks(st, t) \o CollectLedgerChecks(st, t) ELSE Untouched(st, t)
      [] OTHER -> << <<"TRACE.unknown-event", FALSE>> >>)
-  \o StateChecks(t)
+  \o StateChecks(t) \o LedgerChecks(st, t)
   \o (IF ev.ev = "tick" THEN <<>> ELSE << <<"TRACE.height-only-moves-on-tick", t.height = st.height>> >>)
 
 Report(ev, bad) ==
